@@ -174,7 +174,7 @@ def r2(c):
             ok1 = len(conv) == 1 and bool(some_x) and all(x['kind'] == 'call' and x['cs'] is conv[0] for x in some_x)
             if ok1:
                 s = q.sem(b, conv[0].args[0])
-                ok1 = s.kind == 'call' and s.cs is cb[0] and ':Some' in ''.join(s.proj)
+                ok1 = s.kind == 'call' and s.cs is cb[0] and q.has_success(s.proj)
             ok2 = bool(none_x) and all(x['kind'] == 'agg' and x['variant'] == 'Err' and q.agg_variant_of(b, x['rv']['a'][0]) == (EXC_, 'IllegalFunction') for x in none_x)
             ok = ok1 and ok2 and len(some_x) + len(none_x) == len(xs)
             detail = 'Some-exits %s, None-exits %s' % ([x['kind'] for x in some_x], [x['kind'] for x in none_x])
